@@ -63,6 +63,8 @@ func c12(c *Ctx) {
 		}
 		var fns []fnInfo
 		hasLinkname := false
+		docBuf, argBuf := make([]string, 0, 8), make([]string, 0, 4)
+		const scribble = "SCRIBBLED: the caller reused its buffer."
 		for j := 0; j < nf; j++ {
 			fi := fnInfo{name: fmt.Sprintf("Fn%d_%d", k, j), sig: Pick(rng, stubSigs)}
 			ctx.Function(fi.name)
@@ -73,7 +75,13 @@ func c12(c *Ctx) {
 					ctx.Doc("placeholder text.", "", "Deprecated: replaced below.")
 				}
 				fi.doc = Pick(rng, stubDocs)
-				ctx.Doc(fi.doc...)
+				// handed over in a buffer the generator overwrites afterwards, as one that formats each function's
+				// documentation into the same slice would
+				docBuf = append(docBuf[:0], fi.doc...)
+				ctx.Doc(docBuf...)
+				for i := range docBuf {
+					docBuf[i] = scribble
+				}
 			}
 			for p := 0; p < rng.Intn(3); p++ {
 				pr := Pick(rng, stubPragmas)
@@ -81,7 +89,11 @@ func c12(c *Ctx) {
 					hasLinkname = true // the stub then needs import "unsafe", which avo does not emit: not compiled below
 				}
 				fi.prag = append(fi.prag, pr)
-				ctx.Pragma(pr[0], pr[1:]...)
+				argBuf = append(argBuf[:0], pr[1:]...)
+				ctx.Pragma(pr[0], argBuf...)
+				for i := range argBuf {
+					argBuf[i] = "scribbled"
+				}
 			}
 			ctx.MOVQ(operand.U32(1), reg.RAX)
 			ctx.RET()
@@ -131,6 +143,9 @@ func c12(c *Ctx) {
 		asm, err := printer.NewGoAsm(cfg).Print(f)
 		if err != nil {
 			die(err)
+		}
+		if strings.Contains(string(stub), "SCRIBBLED") || strings.Contains(string(stub), "scribbled") {
+			o.Plan.GoViolations = append(o.Plan.GoViolations, GoViolation{Key: "stub:aliases-caller-slice", Desc: fmt.Sprintf("case %d: the stub file shows what the caller wrote into its own Doc/Pragma argument slice after the call, not the documentation and directives that were given: %s", idx, desc), Replay: map[string]any{"functions": desc, "stub": string(stub)}})
 		}
 		// printing reads the file: the same printer asked again, a fresh printer, and the other printer having
 		// run in between all give the same bytes
